@@ -4,9 +4,9 @@ package main
 
 import (
 	"fmt"
-	"os"
 	"go/token"
 	"go/types"
+	"os"
 	"strings"
 
 	"golang.org/x/tools/go/ssa"
@@ -41,39 +41,44 @@ type deferred struct {
 }
 
 type Exec struct {
-	env      *Env
-	tb       *TermBuilder
-	sol      *Solver
-	solOpen  bool
-	prefix   []uint64
-	taken    []uint64
-	witness  Witness
-	pending  []workItem
-	pc       []*Term
-	known    map[int]bool
-	globals  map[*ssa.Global]*Val
-	initDone map[*ssa.Package]bool
-	instrs   int64
-	fuel     int64
-	depth    int
-	nsym     int
-	inputs   []inputRec
-	onceDone map[*Val]bool
-	pools    map[*Val][]Val
-	locks    map[*Val]int
-	run      *Run
-	res      *PathResult
-	nqueries int
-	mergeOff bool
-	fnHits   map[*ssa.Function]int
-	opaqueN  int
-	ptrIDs   map[*Val]int
-	stack    []*ssa.Function
-	trace    string
-	mapMode  int
-	mapSite  int
-	mapSites int
-	obs      []obsRec
+	env       *Env
+	tb        *TermBuilder
+	sol       *Solver
+	solOpen   bool
+	prefix    []uint64
+	taken     []uint64
+	witness   Witness
+	pending   []workItem
+	pc        []*Term
+	known     map[int]bool
+	globals   map[*ssa.Global]*Val
+	initDone  map[*ssa.Package]bool
+	instrs    int64
+	fuel      int64
+	depth     int
+	nsym      int
+	inputs    []inputRec
+	onceDone  map[*Val]bool
+	pools     map[*Val][]Val
+	locks     map[*Val]int
+	lockDisc  bool            // lock discipline checking (lockdisc.go)
+	guardOf   map[*Val]*Val   // guarded field address -> its mutex
+	guardObj  map[*gomap]*Val // map held by a guarded field -> its mutex
+	lockSeen  map[string]bool
+	guardType map[*Val]types.Type
+	run       *Run
+	res       *PathResult
+	nqueries  int
+	mergeOff  bool
+	fnHits    map[*ssa.Function]int
+	opaqueN   int
+	ptrIDs    map[*Val]int
+	stack     []*ssa.Function
+	trace     string
+	mapMode   int
+	mapSite   int
+	mapSites  int
+	obs       []obsRec
 }
 
 func (ex *Exec) fresh(kind string, w int) *Term {
@@ -1099,6 +1104,9 @@ func (ex *Exec) builtin(fr *frame, b *ssa.Builtin, args []Val, c *ssa.CallCommon
 		}
 	case "delete":
 		m, _ := args[0].(*gomap)
+		if ex.guardOf != nil {
+			ex.checkGuardedMap(fr.cf.fn, m, true)
+		}
 		ex.mapDelete(m, args[1])
 		return nil
 	case "recover":
@@ -1253,6 +1261,9 @@ func (ex *Exec) runBlock(fr *frame) {
 			switch in.Op {
 			case token.MUL:
 				fr.regs[ci.dst] = ex.load(x)
+				if ex.guardOf != nil {
+					ex.checkGuardedLoad(fr.cf.fn, x, fr.regs[ci.dst])
+				}
 			case token.NOT:
 				fr.regs[ci.dst] = ex.bnot(x.(Bool))
 			case token.SUB:
@@ -1280,8 +1291,15 @@ func (ex *Exec) runBlock(fr *frame) {
 			fr.regs[ci.dst] = ex.binop(in.Op, in.X.Type(), ex.op(fr, &ci.ops[0]), ex.op(fr, &ci.ops[1]))
 		case *ssa.FieldAddr:
 			p := ex.ptr(ex.op(fr, &ci.ops[0]))
-			fr.regs[ci.dst] = &(*p).(structure)[in.Field]
+			fp := &(*p).(structure)[in.Field]
+			fr.regs[ci.dst] = fp
+			if ex.lockDisc {
+				ex.guardField(fr.cf.fn, in, p, fp)
+			}
 		case *ssa.Store:
+			if ex.guardOf != nil {
+				ex.checkGuardedStore(fr.cf.fn, ex.op(fr, &ci.ops[0]))
+			}
 			ex.storeTo(ex.op(fr, &ci.ops[0]), ex.op(fr, &ci.ops[1]))
 		case *ssa.Call:
 			fr.regs[ci.dst] = ex.doCall(fr, ci, &in.Call)
@@ -1397,6 +1415,9 @@ func (ex *Exec) runBlock(fr *frame) {
 				}
 				fr.regs[ci.dst] = ex.strIndex(x, idx)
 			case *gomap:
+				if ex.guardOf != nil {
+					ex.checkGuardedMap(fr.cf.fn, xv, false)
+				}
 				i := ex.mapFind(xv, k)
 				var v Val
 				if i >= 0 {
@@ -1434,6 +1455,9 @@ func (ex *Exec) runBlock(fr *frame) {
 			fr.regs[ci.dst] = &gomap{}
 		case *ssa.MapUpdate:
 			m, _ := ex.op(fr, &ci.ops[0]).(*gomap)
+			if ex.guardOf != nil {
+				ex.checkGuardedMap(fr.cf.fn, m, true)
+			}
 			ex.mapSet(m, ex.op(fr, &ci.ops[1]), ex.op(fr, &ci.ops[2]))
 		case *ssa.MakeSlice:
 			l := ex.op(fr, &ci.ops[0]).(Int)
@@ -1458,6 +1482,9 @@ func (ex *Exec) runBlock(fr *frame) {
 			x := ex.op(fr, &ci.ops[0])
 			switch xv := x.(type) {
 			case *gomap:
+				if ex.guardOf != nil {
+					ex.checkGuardedMap(fr.cf.fn, xv, false)
+				}
 				it := &mapIter{}
 				if xv != nil {
 					it.keys = append(it.keys, xv.keys...)
